@@ -104,11 +104,13 @@ CLAIMS["C05"] = (
     "Proof: C05_trail_exact - for every type, well-formed datum and coercion mode, under FIRST and ALL, following the "
     "concatenated trail of every leaf error from the root of the input reaches the value that error reports (the tuple() "
     "copy for the two length errors); C05_disable_no_trail; element loops: ALL reports every failing element exactly once "
-    "in order under its index, FIRST reports the first one. Tied to the code by planted faults (wrong-type leaves, tuple "
+    "in order under its index, FIRST reports the first one; C05_all_leaves_of_iterable / fixed_tuple / dict / optional / "
+    "union - under ALL the leaves of a container's error are EXACTLY the leaves of its failing children's errors, each "
+    "once, position prefixed (complete at every nesting depth). Tied to the code by planted faults (wrong-type leaves, tuple "
     "length, bad dict keys, bad key together with bad value) with a direct oracle on the library (follow the trail; ALL = "
     "exactly the planted positions once; FIRST = exactly one; DISABLE = none) and by comparing full error trees with the model.",
-    LOADNOTE + "Partial: completeness is proved for the element loop (lists/tuples), for dict and nested structures it is "
-    "established by the planted-fault oracle; model (crown) trails are covered by the C03/C05 model check. One defect "
+    LOADNOTE + "Model (crown) trails of dataclass-like models are covered by the C05 model_faults block and the C03 check "
+    "(compared, not proved). One defect "
     "repaired (ExcludedTypeLoadError.input_value).", "DESIGN.md section 5 C05", TECH)
 
 CLAIMS["C01"] = (
